@@ -60,6 +60,47 @@ example : let n : Node := { name := "cli" }
     n'.name = n.name ∧ counterGet (n.makeUnique "$future_").1.counters "$future_" ≤ counterGet n'.counters "$future_" ∧
     (n'.makeUnique "$future_").2 = ⟨"cli", "$future_2"⟩ := by decide
 
+/-! ## aliases of incoming connections
+
+Reply routing *between client connections* rests on alias freshness: the server addresses a reply to
+`(alias, $future_N)`, `_SocketManager.send_message` picks the connection by alias, and future names are only unique
+per context — two clients routinely have the same `$future_N` pending.  If an alias still in use were handed out
+again, replies of the older client would travel down the newer client's connection and complete *its* future. -/
+
+theorem acceptConn_counter_increases (n : Node) (cid : Nat) :
+    (n.acceptConn cid).1.peerCounter = n.peerCounter + 1 := rfl
+
+/-- aliases handed out by the strictly increasing `_peer_name_counter` are pairwise distinct: whatever happens between
+two accepts (disconnects included — the counter never goes down), the later alias differs from the earlier one -/
+theorem incoming_aliases_distinct (n n' : Node) (cid cid' : Nat)
+    (hlater : (n.acceptConn cid).1.peerCounter ≤ n'.peerCounter) :
+    (n'.acceptConn cid').2.alias ≠ (n.acceptConn cid).2.alias := by
+  intro h
+  simp only [Node.acceptConn] at h hlater
+  have := Nat.repr_injective ((String.append_right_inj "$client_").1 h)
+  omega
+
+/-- accepting a connection under an alias nobody else holds leaves every existing route as it was -/
+theorem accept_keeps_routes (n : Node) (cid : Nat) (a : String) (hne : (n.acceptConn cid).2.alias ≠ a) :
+    (n.acceptConn cid).1.findPeer a = n.findPeer a := by
+  simp only [Node.acceptConn] at hne
+  have hb : (("$client_" ++ toString (n.peerCounter + 1)) == a) = false := by simpa using hne
+  simp only [Node.findPeer, Node.acceptConn, List.reverse_append, List.reverse_cons, List.reverse_nil, List.nil_append,
+    List.singleton_append, List.find?_cons, hb, Bool.and_false]
+
+example : ((({ name := "srv" } : Node).acceptConn 1).1.acceptConn 2).2.alias = "$client_2" := by decide
+
+/-- the alternative (alias from the current number of connections) is expressible and does **not** have the property:
+A and B connect, A leaves, C connects — C is given B's alias and the route to B now leads to C's connection -/
+theorem alias_by_map_size_collides :
+    let n0 : Node := { name := "srv" }
+    let n1 := (n0.acceptConnByMapSize 1).1        -- A: $client_1
+    let n2 := (n1.acceptConnByMapSize 2).1        -- B: $client_2
+    let n3 := n2.dropConn 1                       -- A disconnects
+    let n4 := (n3.acceptConnByMapSize 3).1        -- C
+    (n2.findPeer "$client_2").map (·.cid) = some 2 ∧ (n4.findPeer "$client_2").map (·.cid) = some 3 := by
+  decide
+
 /-! ## the generated stubs -/
 
 /-- the stub installed under attribute `n` sends method name `n` (closure per name) -/
